@@ -11,6 +11,7 @@ import (
 func init() {
 	env.Register("C07_NewView", C07_NewView)
 	env.Register("C07_BarePreprepare", C07_BarePreprepare)
+	env.Register("C07_FutureNewView", C07_FutureNewView)
 }
 
 // symVote: one VIEW_CHANGE confirmation with every field symbolic.
@@ -53,7 +54,7 @@ func C07_NewView() {
 	if me < 0 {
 		me = env.Choice("me", 4)
 	}
-	wd := newWorld(me, equalWeights(4))
+	wd := newWorld(me, paramWeights())
 	wd.prefix(p)
 	n, ref := wd.n, wd.ref
 	cur := n.m.state.HeightView()
@@ -164,7 +165,7 @@ func C07_NewView() {
 // C07_BarePreprepare: a stand-alone PREPREPARE for a view above 0 must not make the node prepare.
 func C07_BarePreprepare() {
 	me := env.Choice("me", 4)
-	wd := newWorld(me, equalWeights(4))
+	wd := newWorld(me, paramWeights())
 	wd.prefix(env.Param("prefix"))
 	n := wd.n
 	hdr := newSymRef("m")
@@ -178,4 +179,37 @@ func C07_BarePreprepare() {
 	}
 	env.Reach("C07.pp.influence")
 	env.Assert("C07.via_new_view", hdr.view == 0)
+}
+
+// C07_FutureNewView: the second entry into the term, the future cache. While the node is at height 1 it receives
+// a NEW_VIEW that is genuine in every respect (signed by the leader of view 1, three genuine proof-less votes,
+// acceptable fresh block) except that its height h is a symbolic later height and ALL its parts carry a symbolic
+// instance id (traffic of another instance run by the same members and keys). The node is then synced to h. If the
+// message has any influence there, it must be a NEW_VIEW for exactly this instance.
+func C07_FutureNewView() {
+	me := []int{0, 2, 3}[env.Choice("me", 3)]
+	wd := newWorld(me, paramWeights())
+	n := wd.n
+	inst := primitives.InstanceId(env.NondetU64("instance"))
+	h := primitives.BlockHeight(env.NondetU64("height"))
+	env.Assume(h >= 2 && h < 1<<62)
+	foreign := newVNet(wd.reg, wd.net.committee, inst, nil)
+	blk := &stub.Block{H: h, Tag: 0x23, ProposalOK: true}
+	var votes []*interfaces.ViewChangeMessage
+	for _, i := range othersOf(me) {
+		votes = append(votes, foreign.vcm(i, h, 1, nil))
+	}
+	s0 := n.snap()
+	n.deliver(foreign.nvm(1, h, 1, votes, blk).ToConsensusRawMessage())
+	env.Assert("C07.future.nothing_at_height1", !n.influenced(s0))
+	s1 := n.snap()
+	wd.sync(&stub.Block{H: h - 1})
+	env.Assert("C07.future.synced", n.m.state.Height() == h)
+	t := n.snap()
+	if t.events != s1.events || t.out != s1.out || n.m.state.View() != 0 {
+		env.Reach("C07.future.adopted")
+		env.Assert("C07.nv.instance", inst == vInstance)
+	} else {
+		env.Reach("C07.future.ignored")
+	}
 }
